@@ -1073,18 +1073,23 @@ pub fn directed() -> Vec<Request> {
     // depth: types, bound(..) contents and helper expressions nested 8 / 20 / 40 levels
     for depth in [8usize, 20, 40] {
         let wrap = |open: &str, close: &str, core: &str| -> String { format!("{}{core}{}", open.repeat(depth), close.repeat(depth)) };
-        let types = [
+        let mut types = vec![
             wrap("&", "", "T"),
             wrap("Option<", ">", "T"),
             wrap("(", ",)", "T"),
             wrap("[", "; 1]", "T"),
-            wrap("(", ")", "T"),
             wrap("fn(", ")", "T"),
             wrap("*const ", "", "T"),
             wrap("Box<dyn Fn(", ")>", "T"),
             wrap("&'a mut ", "", "(dyn A + B)"),
             wrap("X<", ", u8>", "T"),
         ];
+        // parentheses (and None-delimited groups) around every kind of core, and alternating
+        for core in ["T", "&T", "&'a T", "&mut X", "X", "dyn A + B", "[T]", "fn(T)", "*const X", "(T, u8)"] {
+            types.push(wrap("(", ")", core));
+            types.push(wrap("__ng(", ")", core));
+            types.push(wrap("(&", ")", core));
+        }
         for ty in &types {
             out.push(Request { mode: Mode::Attr, attr: TRAITS.join(", "), item: format!("struct X<'a, T>({ty});") });
             out.push(Request { mode: Mode::Derive, attr: String::new(), item: format!("#[derive_ex(Clone, Debug, Default, PartialOrd, PartialEq, Hash)] enum X<'a, T> {{ A({ty}), #[default] B {{ b: {ty} }} }}") });
@@ -1106,6 +1111,36 @@ pub fn directed() -> Vec<Request> {
             out.push(Request { mode: Mode::Attr, attr: "Ord, PartialOrd, Eq, PartialEq, Hash".into(), item: format!("struct X(#[ord(key = {e})] u8, #[hash(by = {e})] u8);") });
             let v = e.replace('$', "1");
             out.push(Request { mode: Mode::Attr, attr: "Default".into(), item: format!("#[default({v})] struct X(#[default({v})] u8);") });
+        }
+    }
+    // alphabet exhaustion: every single-letter name of a namespace is taken (what a search for a
+    // fresh `'a`, `T`, `f` ... runs into), or all but one
+    {
+        let lower: Vec<char> = ('a'..='z').collect();
+        let upper: Vec<char> = ('A'..='Z').collect();
+        let lifetimes = |skip: Option<char>| lower.iter().filter(|c| Some(**c) != skip).map(|c| format!("'{c}")).collect::<Vec<_>>().join(", ");
+        let types = |skip: Option<char>| upper.iter().filter(|c| Some(**c) != skip).map(|c| c.to_string()).collect::<Vec<_>>().join(", ");
+        let mut items: Vec<String> = Vec::new();
+        for skip in [None, Some('a'), Some('b'), Some('z'), Some('m')] {
+            items.push(format!("struct X<{}, T>(T, &'a u8);", lifetimes(skip).replace("'a, ", "'a, ").trim_start_matches(", ")));
+            items.push(format!("enum X<{}, T> {{ A(T), #[default] B }}", lifetimes(skip)));
+        }
+        for skip in [None, Some('T'), Some('H'), Some('A'), Some('Z')] {
+            items.push(format!("struct X<{}>(A, Z);", types(skip)).replace("(A, Z)", if skip == Some('A') || skip == Some('Z') { "(B, Y)" } else { "(A, Z)" }));
+            items.push(format!("enum X<{}> {{ V(B), #[default] W {{ y: Y }} }}", types(skip)));
+        }
+        items.push(format!("struct X<{}, {}>(&'a A, &'z Z);", lifetimes(None), types(None)));
+        items.push(format!("struct X {{ {} }}", lower.iter().map(|c| format!("{c}: u8")).collect::<Vec<_>>().join(", ")));
+        items.push(format!("enum X {{ #[default] {} }}", upper.iter().map(|c| format!("{c}(u8)")).collect::<Vec<_>>().join(", ")));
+        items.push(format!("struct X<{}>([u8; A]);", upper.iter().map(|c| format!("const {c}: usize")).collect::<Vec<_>>().join(", ")));
+        items.push(format!("impl<{}, T> Add<&'a T> for &'z X<T> {{ type Output = X<T>; }}", lifetimes(None)));
+        for item in items {
+            for list in ["Add, AddAssign, Neg, Not", "Clone, Debug, Default, Ord, PartialOrd, Eq, PartialEq, Hash", "Sub", "Deref"] {
+                out.push(Request { mode: Mode::Attr, attr: list.into(), item: item.clone() });
+            }
+            if !item.starts_with("impl") {
+                out.push(Request { mode: Mode::Derive, attr: String::new(), item: format!("#[derive_ex(Add, SubAssign, Neg, Clone, PartialOrd, PartialEq, Hash)] {item}") });
+            }
         }
     }
     // normalise to the printed token form and drop what is not a valid request
